@@ -15,6 +15,7 @@ import (
 
 func baseFuncName(p *Program, f *ssa.Function) string {
 	n := p.relName(f)
+	n = strings.ReplaceAll(n, p.pkg.Types.Path()+".", "")
 	n = strings.TrimSuffix(n, "$bound")
 	n = strings.TrimSuffix(n, "$thunk")
 	return n
@@ -56,6 +57,31 @@ func (p *Program) census(prop string) []*Obligation {
 								hit = true
 							}
 						}
+					case "senders", "closers":
+						var chv ssa.Value
+						switch in := in.(type) {
+						case *ssa.Send:
+							if cs.Kind == "senders" {
+								chv = in.Chan
+							}
+						case *ssa.Select:
+							if cs.Kind == "senders" {
+								for _, stt := range in.States {
+									if stt.Dir == types.SendOnly {
+										if chanFieldName(p, stt.Chan) == cs.Target {
+											hit = true
+										}
+									}
+								}
+							}
+						case *ssa.Call:
+							if b, ok := in.Call.Value.(*ssa.Builtin); ok && b.Name() == "close" && cs.Kind == "closers" {
+								chv = in.Call.Args[0]
+							}
+						}
+						if chv != nil && chanFieldName(p, chv) == cs.Target {
+							hit = true
+						}
 					case "writers":
 						if st, ok := in.(*ssa.Store); ok {
 							if fa, ok := st.Addr.(*ssa.FieldAddr); ok {
@@ -94,4 +120,21 @@ func (p *Program) census(prop string) []*Obligation {
 		out = append(out, o)
 	}
 	return out
+}
+
+
+func chanFieldName(p *Program, v ssa.Value) string {
+	for {
+		switch a := v.(type) {
+		case *ssa.ChangeType:
+			v = a.X
+			continue
+		case *ssa.UnOp:
+			if fa, ok := a.X.(*ssa.FieldAddr); ok {
+				stt := fa.X.Type().Underlying().(*types.Pointer).Elem()
+				return typeRelName(p, stt) + "." + stt.Underlying().(*types.Struct).Field(fa.Field).Name()
+			}
+		}
+		return ""
+	}
 }
